@@ -140,12 +140,22 @@ def run(ctx):
     bjobs = [(d, doc) for d in ("ct_add_test", "ct_add_section", "cpp_member") for doc in (0, 1)]
     ctx.sweep(functools.partial(check_between, case=case), bjobs, space="option between a declaration and its implementation",
               selftest=2)
+    # a sibling file with the same layout whose commands are documented, documented in the same process just before
+    from .C04 import check_shadow
+    sh = []
+    for ev in ({"k": "option", "doc": 1}, {"k": "option", "doc": 1, "default": "ON"}, {"k": "set", "doc": 1, "values": ["v"]},
+               {"k": "set", "doc": 1, "values": ["a", "b"]}):
+        sh += [(p,) for p in positions(ev)]
+    ctx.sweep(check_shadow, sh, space="same-layout sibling documented in between", selftest=1, chunk=1)
     ctx.assumptions += ["the default of an UNSET variable is not compared (no value text exists)",
                         "an option's help text is compared modulo one pair of surrounding quotes"]
     return RULE
 
 
 def replay(case):
+    if isinstance(case, dict) and "shadow" in case:
+        from .C04 import check_shadow
+        return common.in_fork(check_shadow, (case["shadow"],))["viol"]
     if isinstance(case, list) and len(case) == 2 and isinstance(case[0], str):
         for cs in ("lower", "upper", "mixed"):
             m = check_between(tuple(case), cs)["viol"]
